@@ -4,8 +4,8 @@ EXTENDS TimexResolve
 
 
 (* cfg files cannot write tuples: the tuple-valued constants are named here *)
-Q_DateRanges == {<<737060, 737061>>, <<737060, 737067>>, <<737049, 737074>>, <<737394, 737425>>, <<737059, 737425>>, <<737425, 737456>>}
-T_DateRanges == Q_DateRanges \cup {<<737070, 737090>>, <<737119, 737120>>, <<737424, 737427>>, <<737180, 737546>>}
+Q_DateRanges == {<<737060, 737061>>, <<737060, 737067>>, <<737049, 737074>>, <<737394, 737425>>, <<737059, 737425>>, <<737425, 737456>>, <<736573, 736664>>}   \* the last one: 2017-09-01 + P3M, ends on 1 December
+T_DateRanges == Q_DateRanges \cup {<<737029, 737394>>, <<736982, 737074>>, <<737070, 737090>>, <<737119, 737120>>, <<737424, 737427>>, <<737180, 737546>>}
 Q_TimeRanges == {<<9, 12>>, <<8, 18>>, <<14, 16>>}
 T_TimeRanges == Q_TimeRanges \cup {<<0, 6>>, <<11, 15>>}
 Q_MonthDays == {<<3, 12>>, <<12, 31>>, <<1, 1>>}
